@@ -743,6 +743,8 @@ class Connection:
             if st[1] not in ('IMMEDIATE', 'EXCLUSIVE'):
                 raise Unsupported('BEGIN %s: the lock contract is modelled for BEGIN IMMEDIATE only' % st[1])
             if db.busy_hook is not None and db.busy_hook(self):
+                if db.world is not None:
+                    db.world.refused()
                 raise OperationalError('database is locked')
             if db.lock_holder is not None:
                 if db.world is not None:
